@@ -183,6 +183,17 @@ Example C13_quota_invariant_nonvacuous :
    (k_phase (lx_conn s), k_quota (lx_conn s), open_ids s [112])) = (PhConnected, 1, [2]).
 Proof. vm_compute. split; [now left|split; reflexivity]. Qed.
 
+Example C13_quota_invariant_holds_initially : QInv true lx_s0 1 /\ QInv false lx_full 1.
+Proof. split; apply qinv_b_ok; vm_compute; reflexivity. Qed.
+
+(* the side condition "QoS <= 2" (ev_wf) is needed in the MODEL only: it accepts a PUBLISH with QoS 3 (the decoder
+   of the implementation never delivers one), charges the quota for it and never gives the unit back *)
+Example C13_quota_qos3_model_artefact :
+  let es := [lx_pub false 3 1 lx_T []; lx_pub false 3 2 lx_T []; lx_pub false 1 3 lx_T []] in
+  snd (run lx_s0 es) = [[]; []; [OSend 1 (KDisconnect 147 []); OClose 1]] /\
+  run_ok (quota_side false 1) lx_s0 es = false.
+Proof. vm_compute. split; reflexivity. Qed.
+
 (* with the exact relation the equality fails after a PUBREL for an id that was never open: the unit it gives back
    lets a third publish in although Receive Maximum = 2 publishes are open - exceeding goes unnoticed *)
 Example C13_quota_exact_refuted_by_unknown_pubrel :
@@ -205,8 +216,25 @@ Print Assumptions C13_within_recv_max_never_0x93.
 Example C13_within_recv_max_nonvacuous :
   let s := fst (run lx_s0 [lx_pub false 2 1 lx_T []]) in
   within_recv_max s (lx_conn s) (lx_pkt false 2 2 lx_T []) = true /\ nget 1 (b_conns s) = Some (lx_conn s) /\
-  (k_phase (lx_conn s), k_v (lx_conn s), k_quota (lx_conn s), k_recv_max (lx_conn s), open_ids s [112]) = (PhConnected, 5, 1, 2, [1]).
+  (k_phase (lx_conn s), k_v (lx_conn s), k_quota (lx_conn s), k_recv_max (lx_conn s), open_ids s [112]) = (PhConnected, 5, 1, 2, [1]) /\
+  qrel_b false s (lx_conn s) = true.
 Proof. vm_compute. repeat split; reflexivity. Qed.
+
+(* the same along a history of one socket: if every QoS>0 PUBLISH arrives while fewer than Receive Maximum QoS 2
+   publishes are open (retransmissions included, as long as the quota is not used up), no step answers 0x93 *)
+Theorem C13_within_recv_max_never_0x93_run :
+  forall c es s,
+    QInv false s c -> run_ok (fun s e => quota_side false c s e && ev_within s c e) s es = true ->
+    forall o c' pr, In o (snd (run s es)) -> ~ In (OSend c' (KDisconnect 147 pr)) o.
+Proof. exact never_0x93_run. Qed.
+Print Assumptions C13_within_recv_max_never_0x93_run.
+
+Example C13_within_recv_max_run_nonvacuous :
+  run_ok (fun s e => quota_side false 1 s e && ev_within s 1 e) lx_s0
+         [lx_pub false 2 1 lx_T []; lx_pub false 1 5 lx_T []; lx_pub true 2 1 lx_T []; lx_rel 1; lx_pub false 2 2 lx_T [];
+          lx_pub false 1 6 lx_T []] = true /\
+  qinv_b false lx_s0 1 = true.
+Proof. vm_compute. split; reflexivity. Qed.
 
 (* ... except in the known finding (kf_recvmax_dup_qos2 / kf_resend_at_full_quota_disconnected): the statement with
    "at most Receive Maximum DISTINCT ids open" in place of within_recv_max is false.  Two QoS 2 publishes are open
